@@ -1,6 +1,6 @@
 #!/usr/bin/env python3
 """Development aid: print the markdown tables of DESIGN.md section 0.4 for rounds 2 and 3 from seeded/*/meta.json."""
-import json, glob, os
+import json, glob, os, re
 V = os.path.dirname(os.path.dirname(os.path.abspath(__file__)))
 FIRST = {  # what the quick checks reported when the change arrived (before the strengthening it prompted)
  "S26": "-", "S27": "C01", "S28": "-", "S29": "C01", "S30": "-", "S31": "-", "S32": "-", "S33": "C03", "S34": "C18", "S35": "-", "S36": "-", "S37": "C07", "S38": "C08", "S39": "C09",
@@ -8,10 +8,12 @@ FIRST = {  # what the quick checks reported when the change arrived (before the 
  "S47": "C05", "S48": "- (*)", "S49": "- (*)", "S50": "C09", "S51": "-", "S52": "C01", "S53": "-", "S54": "-", "S55": "C03", "S56": "-", "S57": "C18", "S58": "C17", "S59": "C17",
  "S60": "C13", "S61": "C13", "S62": "C10", "S63": "- (*)", "S64": "- (*)", "S65": "- (*)", "S66": "C09", "S67": "C07",
  "S68": "C12", "S69": "C12", "S70": "C04", "S71": "C04, C03", "S72": "C03", "S73": "C03", "S74": "C01", "S75": "C01, C15", "S76": "-", "S77": "C01, C15", "S78": "-", "S79": "-", "S80": "C02, C01",
+ "S94": "-", "S95": "-", "S96": "-", "S97": "C01", "S98": "C01", "S99": "C12", "S100": "-", "S101": "-", "S102": "-", "S103": "C03", "S104": "-", "S105": "C04, C03", "S106": "C12", "S107": "C16",
+ "S108": "-", "S109": "-", "S110": "-", "S111": "C08", "S112": "-", "S113": "-", "S114": "C10", "S115": "-", "S116": "C06", "S117": "C09",
  "S81": "-", "S82": "-", "S83": "-", "S84": "C06", "S85": "-", "S86": "C18", "S87": "C02", "S88": "-", "S89": "C02, C01", "S90": "C18", "S91": "C18", "S92": "C17", "S93": "C01"}
-for rnd in (2, 3, 4):
+for rnd in (2, 3, 4, 5):
     print("\n| id | breaks | site | caught at first run by | caught now by |\n|---|---|---|---|---|")
-    for p in sorted(glob.glob(os.path.join(V, "seeded", "S*", "meta.json"))):
+    for p in sorted(glob.glob(os.path.join(V, "seeded", "S*", "meta.json")), key=lambda q: int(re.search(r"S(\d+)", q).group(1))):
         m = json.load(open(p))
         if m.get("round") != rnd:
             continue
